@@ -2158,3 +2158,13 @@ impl LSMIterator for TransactionHistoryIterator<'_> {
 		}
 	}
 }
+
+// Verification hooks (guarded; stripped unless built with cfg(kani) or --cfg surrealkv_verif).
+#[cfg(kani)]
+mod verif_kani {
+	include!(concat!(env!("SURREALKV_VERIF_DIR"), "/kani/transaction.rs"));
+}
+#[cfg(all(test, surrealkv_verif))]
+mod verif_replay {
+	include!(concat!(env!("SURREALKV_VERIF_DIR"), "/replay/transaction.rs"));
+}
